@@ -193,6 +193,7 @@ var c16LayInfos = map[string]c16LayInfo{
 	time.RFC850:             {NoParse: true},
 	time.UnixDate:           {NoParse: true},
 	time.RFC1123:            {NoParse: true},
+	time.RFC822:             {NoParse: true},
 	"2006-1-2 3:4:5 pm -07": {Year: true, MonthDay: true, Hour: true, Min: true, Sec: true, Zone: 3},
 	"Monday, January 2 2006 15:04:05.000000000 Z0700": {Year: true, MonthDay: true, Hour: true, Min: true, Sec: true, Frac: 9, Zone: 1},
 	"2006-01-02T15:04:05,000Z07":                      {Year: true, MonthDay: true, Hour: true, Min: true, Sec: true, Frac: 3, Zone: 3},
@@ -820,6 +821,24 @@ func runC16(r *Run) {
 		c16One(r, x, c, "element-sweep")
 	}
 	r.Extra["sweep_layouts"] = sweep
+	// zones at offset zero that are NOT UTC (GMT, WET, an unnamed +00:00): under UTC mode the record says UTC, otherwise
+	// the zone's own name - visible in the layouts that print the zone's name
+	k0 := 0
+	for _, z := range []c16Zone{{Kind: "fixed", Name: "GMT", Offset: 0}, {Kind: "fixed", Name: "WET", Offset: 0}, {Kind: "fixed", Name: "", Offset: 0}, {Kind: "fixed", Name: "CET", Offset: 3600}} {
+		for _, lay := range []string{time.RFC1123, time.UnixDate, time.RFC850, time.RFC822, "02/01/2006 15:04:05.00 -0700 MST", time.RFC3339Nano, ""} {
+			for ui := range c16UTCStates {
+				k0++
+				in := c16Instant{Sec: 1700000000 + int64(k0)*86399, Nsec: 123456789, Zone: z}
+				c := c16Cell{Inst: in, Base: c16Bases[k0%len(c16Bases)], DT: k0 % 8, Local: k0%2 == 0, UTC: c16UTCStates[ui],
+					Layout: &[]string{lay}, Shape: c16Shapes[k0%3], Form: forms[k0/3%3], Level: int(slog.WarnLevel)}
+				if lay == "" {
+					c.Layout = nil
+				}
+				cellNo = 0
+				c16One(r, x, c, "zero-offset-zones")
+			}
+		}
+	}
 
 	// argument-list forms
 	coqEvery = 1
